@@ -121,14 +121,15 @@ func (f *fakeBreaker) DoWithFallbackAcceptableCtx(ctx context.Context, req func(
 var restMetrics *stat.Metrics
 
 // restCase drives a fresh BreakerHandler (its breaker is private: observed through behaviour).
-//   code >= 500: six such responses are all passed through even under the drop answer (at most
-//                5 non-accepted records before each: the law forbids a rejection, so nothing is
-//                counted twice); the 7th request is then refused with 503 under the drop answer
-//                (6 failures, nothing accepted: rejection probability 1/7 > 0), which shows they
-//                were counted as failures.
-//   code <  500: 60 such responses, then six 500s: everything passed through, and so is a 7th 500
-//                under the drop answer (6 non-accepted vs 5 + 10% of 60 = 11): refused only if
-//                the 60 were not counted as accepted.
+//
+//	code >= 500: six such responses are all passed through even under the drop answer (at most
+//	             5 non-accepted records before each: the law forbids a rejection, so nothing is
+//	             counted twice); the 7th request is then refused with 503 under the drop answer
+//	             (6 failures, nothing accepted: rejection probability 1/7 > 0), which shows they
+//	             were counted as failures.
+//	code <  500: 60 such responses, then six 500s: everything passed through, and so is a 7th 500
+//	             under the drop answer (6 non-accepted vs 5 + 10% of 60 = 11): refused only if
+//	             the 60 were not counted as accepted.
 func restCase(code int) *fail {
 	vsched.SetNow(0)
 	if restMetrics == nil {
